@@ -152,6 +152,20 @@ func driveAllocs(s *shardSet, rng *rand.Rand, thorough bool) ([]string, map[stri
 			measured++
 		}
 	}
+	// large conversions (a path that hands big blocks to helper goroutines or scratch buffers allocates)
+	for i, f := range ConvFns {
+		for j, total := range []int{1<<14 + 3, 1<<17 + 5, 1<<20 + 1} {
+			if total > 1<<17+5 && !thorough && i%4 != 0 {
+				continue
+			}
+			ch := 1 + (i+j)%3
+			fr := total/ch + 1
+			w := s.Next()
+			w.Reset()
+			w.ConvertBig(f.Name, f.Src[(i+j)%len(f.Src)], f.Dst[(i*2+j)%len(f.Dst)], ch, fr, fr, 97)
+			measured++
+		}
+	}
 	return types, map[string]int{"worlds": measured}
 }
 
